@@ -6,7 +6,7 @@ import Verif.Model.Revocation
   renewal gates, tied to /repo by the C07 correspondence stages).  Histories are arbitrary event
   lists over arbitrary request sets: every interleaving of the atomic steps of revocations and
   renewals (of any route: each request carries only the table and the key string the code
-  uses), every placement of restarts, and every fault sequence (each request carries the fault
+  uses; `revoked_blocks_full` starts from the serial string as sent), every placement of restarts, and every fault sequence (each request carries the fault
   that hits its storage step).
 -/
 namespace Verif.Rev
@@ -589,21 +589,137 @@ theorem serial_same_value (a b : Str) (v : Bool × Nat) (ha : parseSerial a = so
     (hna : a ≠ []) (hnb : b ≠ []) : canonSerial a = canonSerial b ∧ canonSerial a = some (printSerial v) := by
   unfold canonSerial; simp [ha, hb, hna, hnb]
 
-/-! ## 5. the SSH route does not canonicalise (D13) -/
+/-! ## 4c. the SSH route's canonicalisation (since c1e180f) and the full-strength blocking theorem -/
+
+theorem uintDigits_append (xs ys : Str) (v : Nat) :
+    uintDigits (xs ++ ys) v = match uintDigits xs v with | none => none | some v' => uintDigits ys v' := by
+  induction xs generalizing v with
+  | nil => simp [uintDigits]
+  | cons x xs ih =>
+    simp only [List.cons_append, uintDigits]
+    split
+    · exact ih _
+    · rfl
+
+theorem uint_dec (f : Nat) : ∀ m, m < 10 ^ (f + 1) → uintDigits (decDigitsF (f + 1) m) 0 = some m := by
+  induction f with
+  | zero =>
+    intro m hm
+    have hm : m < 10 := by simpa using hm
+    have : 48 ≤ 48 + m ∧ 48 + m ≤ 57 := by omega
+    simp [decDigitsF, hm, uintDigits, this]
+  | succ f ih =>
+    intro m hm
+    by_cases h10 : m < 10
+    · have : 48 ≤ 48 + m ∧ 48 + m ≤ 57 := by omega
+      simp [decDigitsF, h10, uintDigits, this]
+    · have hdiv : m / 10 < 10 ^ (f + 1) := by
+        apply Nat.div_lt_of_lt_mul
+        rw [Nat.pow_succ] at hm; omega
+      have hd : decDigitsF (f + 1 + 1) m = decDigitsF (f + 1) (m / 10) ++ [48 + m % 10] := by
+        rw [decDigitsF]; simp [h10]
+      rw [hd, uintDigits_append, ih _ hdiv]
+      have hmod : m % 10 < 10 := Nat.mod_lt _ (by omega)
+      have : 48 ≤ 48 + m % 10 ∧ 48 + m % 10 ≤ 57 := by omega
+      simp [uintDigits, this]
+      omega
+
+theorem parseUint10_dec (n : Nat) (h : n < 2 ^ 64) : parseUint10 (decDigits n) = some n := by
+  unfold parseUint10 decDigits
+  have hne := decDigitsF_ne_nil n n
+  simp only [hne, if_false]
+  rw [uint_dec n n (lt_pow_succ n)]
+  simp [h]
+
+theorem parseUint10_lt (t : Str) (n : Nat) (h : parseUint10 t = some n) : n < 2 ^ 64 := by
+  unfold parseUint10 at h
+  split at h
+  · cases h
+  · split at h
+    · split at h
+      · cases h; assumption
+      · cases h
+    · cases h
+
+/-- **ssh_serial_canonical.** What `SSHRevokeRequest.Validate` (since c1e180f) produces is a fixed
+    point of it: the stored SSH key is the canonical decimal form. -/
+theorem ssh_serial_canonical (t c : Str) (h : canonSSHSerial t = some c) : canonSSHSerial c = some c := by
+  unfold canonSSHSerial at h ⊢
+  cases hp : parseUint10 t with
+  | none => rw [hp] at h; cases h
+  | some v =>
+    rw [hp] at h; simp at h; subst h
+    rw [parseUint10_dec v (parseUint10_lt t v hp)]; rfl
+
+/-- **wire_key_of_value.** On both routes the key a revocation is stored under depends only on the
+    number its serial string denotes, and it is exactly the key a renewal of the certificate with
+    that serial number looks up — whatever spelling the request used ("016", "0x10" on the X.509
+    route; "016", "0016" on the SSH route, which accepts decimal only). -/
+theorem wire_key_of_value (ssh : Bool) (raw : Str) (n : Nat) (h : wireValue ssh raw = some n) :
+    wireKey ssh raw = some (certKey n) := by
+  unfold wireValue at h
+  unfold wireKey certKey
+  cases ssh with
+  | true => simp at h ⊢; unfold canonSSHSerial; rw [h]; rfl
+  | false =>
+    simp at h ⊢
+    obtain ⟨hne, h⟩ := h
+    unfold canonSerial
+    simp only [hne, if_false]
+    cases hp : parseSerial raw with
+    | none => rw [hp] at h; simp at h
+    | some v =>
+      rw [hp] at h
+      obtain ⟨neg, m⟩ := v
+      cases neg with
+      | false => simp at h; subst h; simp [printSerial]
+      | true =>
+        cases m with
+        | zero => simp at h; subst h; simp [printSerial]
+        | succ k => simp at h
+
+/-- **revoked_blocks_full.** Full strength, all routes, no hypothesis on strings: a revocation
+    request whose serial string `raw` (any spelling its route accepts) denotes the number `n` has
+    been acknowledged after `evs1`; request `j` is a renewal or rekey (mTLS, renew token, SSH
+    proof of possession) of the certificate of the same kind with serial number `n` that has not
+    started by then.  After every continuation — interleavings, restarts, faults — `j` is not
+    allowed. -/
+theorem revoked_blocks_full (g : G) (rs : List Req) (hfresh : ∀ r ∈ rs, r.fresh) (evs1 evs2 : List Ev)
+    (ri rj : Req) (j : Nat) (raw : Str) (n : Nat)
+    (hri : ri ∈ (machine.run (g, rs) evs1).2) (hok : ri.out = .ok)
+    (hwire : wireKey ri.inp.kind.isSSH raw = some ri.inp.key)
+    (hval : wireValue ri.inp.kind.isSSH raw = some n)
+    (hrj : (machine.run (g, rs) evs1).2[j]? = some rj) (hjfresh : rj.fresh)
+    (hjk : rj.inp.kind.isRevoke = false) (hssh : rj.inp.kind.isSSH = ri.inp.kind.isSSH)
+    (hcert : rj.inp.key = certKey n) :
+    ∃ rj', (machine.run (g, rs) (evs1 ++ evs2)).2[j]? = some rj' ∧ rj'.out ≠ .allowed := by
+  have := wire_key_of_value _ raw n hval
+  rw [hwire] at this
+  exact revoked_blocks g rs hfresh evs1 evs2 ri rj j hri hok hrj hjfresh hjk hssh
+    (by rw [hcert]; exact (Option.some.inj this).symm)
+
+example : wireKey true (Verif.s "016") = some (certKey 16) ∧ wireKey true (Verif.s "0x10") = none ∧
+    wireKey true (Verif.s "+16") = none ∧ wireKey true (Verif.s "1_6") = none ∧
+    wireKey true (Verif.s "18446744073709551616") = none ∧
+    wireKey true (Verif.s "18446744073709551615") = some (certKey 18446744073709551615) ∧
+    wireKey false (Verif.s "0x10") = some (certKey 16) ∧ canonSSHSerialOld (Verif.s "016") = some (Verif.s "016") := by decide
+/-! ## 5. historic: the SSH route before c1e180f did not canonicalise (D13, fixed) -/
 
 def mk (kind : Kind) (key : String) (tag : Nat) : Req :=
   { inp := { kind := kind, key := Verif.s key, tag := tag, fault := .none, crlFails := false, otherOK := true } }
 
-/-- **D13 (refutation).** `/1.0/ssh/revoke` stores the record under the serial string *as sent*
-    (no `Validate` canonicalisation, and nothing ties it to the certificate of the
-    proof-of-possession token): a revocation sent as `"016"` is acknowledged, and the renewal of
-    the certificate with serial 16 — whose gate looks up `"16"` — is allowed.  `revoked_blocks`
-    needs `hkey`: the revocation's key string equals the renewal's. -/
+/-- **D13 (historic refutation, about `canonSSHSerialOld`).** Before c1e180f `/1.0/ssh/revoke`
+    stored the record under the serial string *as sent*: a revocation sent as `"016"` was stored
+    under `"016"`, acknowledged, and the renewal of the certificate with serial 16 — whose gate
+    looks up `"16"` — was allowed.  With the current `canonSSHSerial` the same request is stored
+    under `"16"` and `revoked_blocks_full` applies. -/
 theorem ssh_revoke_unnormalised :
     ∃ (rs : List Req) (evs : List Ev), (∀ r ∈ rs, r.fresh) ∧
       (machine.run ({ x509 := [], ssh := [] }, rs) evs).2.map (·.out) = [.ok, .allowed] ∧
       rs.map (·.inp.kind) = [.revokeSSH, .renewSSH] ∧
-      rs.map (·.inp.key) = [Verif.s "016", Verif.s "16"] :=
+      rs.map (·.inp.key) = [Verif.s "016", Verif.s "16"] ∧
+      canonSSHSerialOld (Verif.s "016") = some (Verif.s "016") ∧ certKey 16 = Verif.s "16" ∧
+      canonSSHSerial (Verif.s "016") = some (Verif.s "16") :=
   ⟨[mk .revokeSSH "016" 0, mk .renewSSH "16" 1],
    [.step 0, .step 0, .step 0, .step 1, .step 1, .step 1], by decide⟩
 
